@@ -29,7 +29,8 @@ def run(ctx, info):
     obs = L.run_pairs(pairs)
     n = L.c07_decide(ctx, pairs, obs)
     ctx.add_cover(2 * n, n, "every optimizer run twice with the same integer seed (seeds incl. 0, 42, 2^31-1) in different worker processes, the second after a random "
-                  "number of unrelated numpy draws; every position, cost, fitness and rate of every generation compared", [pairs[0][0], pairs[-1][1]])
+                  "number of unrelated numpy draws; every position, cost, fitness and rate of every generation compared; the same call twice on one instance; a task OBJECT that was sampled from / optimised on before "
+                  "against a freshly built equal task (all encodings); pairs of fresh interpreters with different hash seeds", [pairs[0][0], pairs[-1][1]])
 
 
 def replay(rep):
